@@ -747,6 +747,7 @@ def run_live_exec(case):
                     finish_call(c, quiet=True)      # the old process is gone; whatever its threads still do is invisible
                 new_framework()
                 changed.clear(); cache.clear()
+                del sent_snapshots[:]      # a new connection cannot deliver what the old one had sent
                 cache.update(b["id"] for b in bets if not b["complete"])      # the initial image of a new subscription holds the live orders only
                 res = {"restart": True}
             d = dump()
